@@ -51,7 +51,7 @@ def c03(tier, seed):
     w = n(tier, 150, 2500)
     runs = [dict(cfg=c, traces=w, drain=True, preds=C03_PREDS) for c in ("p11", "p21n", "pnat", "plite", "plitecp", "p22")]
     runs[0]["scheds"] = ["nm_selvalid", "nm_ctlsel_uc"]
-    runs[1]["scheds"] = ["nm_prioless"]
+    runs[1]["scheds"] = ["nm_prioless", "c03_early_uc_low_then_high_selected"]
     runs.append(dict(cfg="pnatc", traces=w, drain=True, preds=C03_PREDS, scheds=["c03_supersede_while_nominating"]))
     runs.append(dict(cfg="p21inj", traces=w, drain=True, zerowait=True, preds=C03_PREDS, scheds=["c03_plain_uc_after_valued"]))
     plan = {"runs": runs, "mc": [("p11", ["SelValidated"], {"MaxTicks": 2, "MaxLoss": 1, "MaxDup": 0}), ("plite", ["SelListed"], None)],
